@@ -9,6 +9,7 @@ import (
 	"strconv"
 	"strings"
 	"testing"
+	"time"
 
 	corev1 "k8s.io/api/core/v1"
 	"k8s.io/apimachinery/pkg/runtime"
@@ -299,6 +300,7 @@ type c20xWorld struct {
 	cmObj    *corev1.ConfigMap // the object last written to the API (nil: does not exist)
 	apiError string
 	failArmed, failUsed bool // injected failure of the next NodeSLO write (Create/Update/Delete)
+	afterCMRead func()       // one-shot hook: runs right after the next read of the slo-controller ConfigMap through the client
 }
 
 // c20xInject fails the next write of a NodeSLO object when armed.
@@ -312,6 +314,15 @@ func (w *c20xWorld) c20xInject(obj client.Object) error {
 
 func (w *c20xWorld) newClient() client.Client {
 	return fake.NewClientBuilder().WithScheme(w.scheme).WithInterceptorFuncs(interceptor.Funcs{
+		Get: func(ctx context.Context, cl client.WithWatch, key client.ObjectKey, obj client.Object, opts ...client.GetOption) error {
+			err := cl.Get(ctx, key, obj, opts...)
+			if _, ok := obj.(*corev1.ConfigMap); ok && w.afterCMRead != nil && key.Name == sloconfig.SLOCtrlConfigMap && key.Namespace == sloconfig.ConfigNameSpace {
+				f := w.afterCMRead
+				w.afterCMRead = nil
+				f() // the caller has read the object and not used it yet
+			}
+			return err
+		},
 		Create: func(ctx context.Context, cl client.WithWatch, obj client.Object, opts ...client.CreateOption) error {
 			if err := w.c20xInject(obj); err != nil {
 				return err
@@ -423,14 +434,16 @@ func TestVerifC20Hist(t *testing.T) {
 			continue
 		}
 		c := env.newCase(h)
-		c20xRandomHistory(c, r)
+		c20xRandomHistory(c, r, idx%6 == 5)
 		c.finish()
 	}
 	h.Close("history of 3-12 steps on one fake API + real handlers + real Reconcile: slo-controller ConfigMap create / update (nothing, unrelated key only, " +
 		"remove key(s) only, add a key only, edit that unsets a layer/entry/field or changes a value, break a section, regenerate sections) / delete, foreign ConfigMap events, " +
 		"node add / relabel (random or one label flipped) / annotation-only update / delete, controller restart (ConfigMap event before or after the node list); " +
 		"after each step every enqueued request is reconciled and all NodeSLO specs are read back; in 1/3 of the cases a burst of 2-4 steps only ENQUEUES " +
-		"(requests reconciled one by one in random order in between and afterwards, some with an injected failure of the NodeSLO write, some spurious; oracle at quiescence); non-trivial = some step where a field delivered to a node goes from set to unset; distinct by op lines")
+		"(requests reconciled one by one in random order in between and afterwards, some with an injected failure of the NodeSLO write, some spurious; oracle at quiescence); " +
+		"every 6th case contains a LAZY-INIT RACE step: restart whose ConfigMap Create event is late, the first Reconcile's IsCfgAvailable reads the ConfigMap and a client hook " +
+		"updates it and hands Create+Update to the real handler (other goroutine, bounded wait) before the sync, then all requests are reconciled, oracle = specs of the LATEST ConfigMap; non-trivial = some step where a field delivered to a node goes from set to unset; distinct by op lines")
 }
 
 // ---------------------------------------------------------------- one case: world + oracle memory + step methods
@@ -475,6 +488,8 @@ type c20xCase struct {
 	textIDs  map[string]int
 	nodes    map[int]map[int]int // node -> labels
 	prevExp  map[int][]c20Layer
+	prevObs  map[int][]c20Layer // what the cache delivered to the node at the previous observation
+	raceOld  []c20Good          // during the observation that ends a race step: the oracle's memory for the SUPERSEDED ConfigMap (T1)
 	stepNo   int
 	sawUnset bool
 	hold     bool // events only enqueue (Model/C20HistQ.lean); requests are reconciled one by one by reconcileOne
@@ -487,7 +502,7 @@ func (e *c20xEnv) newCase(h *vHarness) *c20xCase {
 		}
 	}
 	c := &c20xCase{env: e, h: h, ctx: context.TODO(), failed: map[string]bool{}, cur: make([]c20SecRaw, 5), extra: map[string]string{},
-		good: make([]c20Good, 5), goodAlt: make([]c20Good, 5), textIDs: map[string]int{}, nodes: map[int]map[int]int{}, prevExp: map[int][]c20Layer{}}
+		good: make([]c20Good, 5), goodAlt: make([]c20Good, 5), textIDs: map[string]int{}, nodes: map[int]map[int]int{}, prevExp: map[int][]c20Layer{}, prevObs: map[int][]c20Layer{}}
 	c.w = &c20xWorld{scheme: e.scheme}
 	c.w.cl = c.w.newClient()
 	c.w.start()
@@ -582,11 +597,11 @@ func (c *c20xCase) stepCMWrite(variation string) {
 	// the event's sections as ops; the oracle's memory follows the texts
 	h.Op("hev %d %s", kind, vIntsI(ident))
 	for s := 0; s < 5; s++ {
-		c20EmitSection(h, s, c.cur[s], c.fail)
-		switch c.cur[s].state {
-		case 0:
+		// 'parsable' by the strict reading of the text (exactly one JSON value), not by what the code under test accepted
+		switch st := c20EmitSection(h, s, c.cur[s], c.fail); {
+		case st == 0:
 			c.good[s], c.goodAlt[s] = c20Good{absent: true}, c20Good{absent: true}
-		case 2:
+		case st == 2 && c.cur[s].state == 2:
 			cp := c20xCopySec(c.cur[s])
 			c.good[s], c.goodAlt[s] = c20Good{sec: cp}, c20Good{sec: cp}
 		}
@@ -674,6 +689,7 @@ func (c *c20xCase) stepNodeDelete(nm int) {
 	oldLabels := c.nodes[nm]
 	delete(c.nodes, nm)
 	delete(c.prevExp, nm)
+	delete(c.prevObs, nm)
 	h.Op("hnode 2 %d 0", nm)
 	h.Tag("hstep:node-delete")
 	w.must(w.cl.Delete(c.ctx, c20xNodeObj(nm, nil, false)), "delete node")
@@ -812,6 +828,12 @@ func (c *c20xCase) observe(kind string) {
 			continue
 		}
 		exps := make([]c20Layer, 5)
+		viewLayers := make([]c20Layer, 5)
+		for s := range viewLayers {
+			viewLayers[s] = c20LayerOf(view[s])
+		}
+		prevObs := c.prevObs[nm]
+		c.prevObs[nm] = viewLayers
 		anyUnset, anyOther := false, false
 		for s := 0; s < 5; s++ {
 			exp := c20xExpect(s, c.good[s], labels, c.env.defLayers[s])
@@ -839,6 +861,16 @@ func (c *c20xCase) observe(kind string) {
 				d := c20Diffs(obsS, exp)[0]
 				c.fail("C20:hist:nodeslo-stale:"+c20SecNames[s], "the NodeSLO of n%d does not carry the recomputed spec: section %s field %s: %s (after step %d %s, labels %v)",
 					nm, c20SecNames[s], c20PathNames(d.p), d.what, stp, kind, labels)
+			} else if c.raceOld != nil && c20LayerEq(obsV, c20xExpect(s, c.raceOld[s], labels, c.env.defLayers[s])) {
+				// the cache holds what the ConfigMap said BEFORE the update that raced the lazy initialisation
+				d := c20Diffs(obsV, exp)[0]
+				c.fail("C20:hist:lazy-init-overwrote-newer-configmap:"+c20SecNames[s], "after a restart whose first reconcile initialised the cache while the ConfigMap was updated, the cache (and every NodeSLO) keeps the SUPERSEDED ConfigMap for n%d: section %s field %s: %s (after step %d %s, labels %v)",
+					nm, c20SecNames[s], c20PathNames(d.p), d.what, stp, kind, labels)
+			} else if kind == "cm" && c.cur[s].state == 1 && c20ValidPrefix(c.cur[s].text) && prevObs != nil && !c20LayerEq(obsV, prevObs[s]) {
+				// the text written by this step is not parsable (strict reading), yet what the cache delivers changed with it
+				d := c20Diffs(obsV, exp)[0]
+				c.fail("C20:hist:malformed-section-applied:"+c20SecNames[s], "section text %q is not one JSON value (only its prefix is) but the previously effective settings were not kept for n%d: section %s field %s: %s (after step %d %s, labels %v)",
+					c.cur[s].text, nm, c20SecNames[s], c20PathNames(d.p), d.what, stp, kind, labels)
 			} else {
 				d := c20Diffs(obsV, exp)[0]
 				c.fail("C20:hist:cache-stale:"+c20SecNames[s], "the cached config does not follow the current ConfigMap for n%d: section %s field %s: %s (after step %d %s, labels %v)",
@@ -854,6 +886,124 @@ func (c *c20xCase) observe(kind string) {
 			}
 		}
 	}
+}
+
+// ---- lazy initialisation of the cache racing a ConfigMap update (Model/C20Race.lean)
+
+// c20xRaceWait: how long the hook waits for the event handler.  On a tree whose IsCfgAvailable holds the cache lock over
+// check-read-sync the handler cannot run before the lazy init is over, so the hook always waits this long there.
+const c20xRaceWait = 25 * time.Millisecond
+
+// stepRace: controller restart whose FIRST reconcile initialises the cache lazily (IsCfgAvailable: the ConfigMap's initial
+// Create event has not been handled yet) while the ConfigMap is updated.  The client hook fires when IsCfgAvailable has read
+// the ConfigMap (text T1) and has not synced it yet: the ConfigMap is updated in the API (T2 = c.cur as edited by the
+// caller) and the informer's events - the late initial Create(T1), then Update(T1 -> T2) - are handed to the real handler on
+// another goroutine; the hook gives the handler c20xRaceWait to finish (it cannot, if the lazy init holds the lock), then
+// lets IsCfgAvailable continue.  After that Reconcile has returned and the handler is done, every queued request is
+// reconciled, and the oracle demands the NodeSLO specs of the LATEST ConfigMap (T2).
+// Model ops (the atomic lazy init of the pinned source): hrestartlate; hrec n; hcmlate; hev 2 T2; reconcile all.
+func (c *c20xCase) stepRace(r *vRand, t1Secs []c20SecRaw) {
+	h, w := c.h, c.w
+	c.enterHold()
+	h.Op("hrestartlate")
+	h.Tag("hstep:race-lazy-init")
+	t1 := w.cmObj
+	w.start()
+	for s := range c.good { // the new process knows nothing of earlier texts; it will see T1 (read or late Create event), then T2
+		c.good[s], c.goodAlt[s] = c20Good{absent: true}, c20Good{absent: true}
+		if t1Secs[s].state == 2 {
+			cp := c20xCopySec(t1Secs[s])
+			c.good[s], c.goodAlt[s] = c20Good{sec: cp}, c20Good{sec: cp}
+		}
+	}
+	for _, nm := range c.names() {
+		w.nodeH.Create(c.ctx, event.TypedCreateEvent[client.Object]{Object: c20xNodeObj(nm, c.nodes[nm], false)}, w.q)
+	}
+	sl := &slov1alpha1.NodeSLOList{}
+	w.must(w.cl.List(c.ctx, sl), "list nodeslo")
+	for i := range sl.Items {
+		w.q.Add(reconcile.Request{NamespacedName: types.NamespacedName{Name: sl.Items[i].Name}})
+	}
+	raceOld := append([]c20Good{}, c.good...)
+	data, ident := c.buildData()
+	t2 := c20xNewCMObj(data)
+	writeT2 := func() {
+		got := &corev1.ConfigMap{}
+		w.must(w.cl.Get(c.ctx, types.NamespacedName{Namespace: sloconfig.ConfigNameSpace, Name: sloconfig.SLOCtrlConfigMap}, got), "get cm")
+		got.Data = data
+		w.must(w.cl.Update(c.ctx, got), "update cm")
+		w.cmObj = t2
+	}
+	handlerPanicked := false
+	events := func() {
+		defer func() {
+			if recover() != nil {
+				handlerPanicked = true
+			}
+		}()
+		w.handler.Create(c.ctx, event.TypedCreateEvent[client.Object]{Object: t1.DeepCopy()}, w.q)
+		w.handler.Update(c.ctx, event.TypedUpdateEvent[client.Object]{ObjectOld: t1.DeepCopy(), ObjectNew: t2.DeepCopy()}, w.q)
+	}
+	// the first request of the new process
+	k := r.Intn(len(w.q.items))
+	req := w.q.items[k]
+	w.q.items = append(append([]reconcile.Request{}, w.q.items[:k]...), w.q.items[k+1:]...)
+	nm, err := strconv.Atoi(strings.TrimPrefix(req.Name, "n"))
+	if err != nil {
+		nm = 999
+	}
+	fired, between := false, false
+	done := make(chan struct{})
+	w.afterCMRead = func() {
+		fired = true
+		writeT2()
+		go func() {
+			defer close(done)
+			events()
+		}()
+		select {
+		case <-done:
+			between = true
+		case <-time.After(c20xRaceWait):
+		}
+	}
+	var rerr error
+	panicked := h.Guard(func() { _, rerr = w.rec.Reconcile(c.ctx, req) })
+	w.afterCMRead = nil
+	switch {
+	case !fired: // the availability check did not read the ConfigMap through the client: the update simply comes afterwards
+		h.Tag("hrace:configmap-not-read")
+		writeT2()
+		events()
+	case between:
+		<-done
+		h.Tag("hrace:event-handled-between-read-and-sync")
+	default:
+		<-done
+		h.Tag("hrace:event-handled-after-lazy-init")
+	}
+	w.must(rerr, "reconcile "+req.Name)
+	h.Op("hrec %d", nm)
+	h.Op("hcmlate")
+	h.Op("hev 2 %s", vIntsI(ident))
+	for s := 0; s < 5; s++ {
+		switch st := c20EmitSection(h, s, c.cur[s], c.fail); {
+		case st == 0:
+			c.good[s], c.goodAlt[s] = c20Good{absent: true}, c20Good{absent: true}
+		case st == 2 && c.cur[s].state == 2:
+			cp := c20xCopySec(c.cur[s])
+			c.good[s], c.goodAlt[s] = c20Good{sec: cp}, c20Good{sec: cp}
+		}
+		h.Tag(fmt.Sprintf("hsec-%s:%s", c20SecNames[s], []string{"absent", "malformed", "parsed"}[c.cur[s].state]))
+	}
+	h.Op("end")
+	if panicked || handlerPanicked {
+		h.Obs("panic")
+		c.fail("C20:panic", "Reconcile or the ConfigMap handler panicked")
+	}
+	c.raceOld = raceOld
+	c.leaveHold(r)
+	c.raceOld = nil
 }
 
 // ---- hold mode: events only enqueue; queued requests are reconciled one at a time, in any order
@@ -930,7 +1080,34 @@ func (c *c20xCase) leaveHold(r *vRand) {
 
 // ---------------------------------------------------------------- random histories
 
-func c20xRandomHistory(c *c20xCase, r *vRand) {
+// c20xRaceEdit turns the current ConfigMap content (T1) into T2 for stepRace: 1-3 sections edited or regenerated.  A section
+// that T1 has parsable is never made unparsable: "previously effective" would then depend on whether the new process has
+// seen T1 at all (lazy init before the event: T1's settings; event before a re-checking lazy init: the default) - both legal.
+func c20xRaceEdit(c *c20xCase, r *vRand) {
+	for i, s := range r.Perm(5) {
+		if i > 0 && !r.Chance(1, 3) {
+			continue
+		}
+		if c.cur[s].state == 2 && r.Bool() {
+			cp := c20xCopySec(c.cur[s])
+			if tag := c20xMutate(r, s, &cp); tag != "" {
+				cp.text = c20xRender(s, cp)
+				c.cur[s] = cp
+				continue
+			}
+		}
+		next := c20SecRaw{state: 0}
+		for try := 0; try < 8; try++ {
+			if g := c20GenSection(r, s); g.state != 1 {
+				next = g
+				break
+			}
+		}
+		c.cur[s] = next
+	}
+}
+
+func c20xRandomHistory(c *c20xCase, r *vRand, race bool) {
 	h, w := c.h, c.w
 	nSteps := r.Range(3, 8)
 	if r.Chance(1, 12) {
@@ -938,7 +1115,7 @@ func c20xRandomHistory(c *c20xCase, r *vRand) {
 	}
 	h.Tag(fmt.Sprintf("hsteps:%d", nSteps))
 	forced := []string{}
-	if !r.Chance(1, 8) {
+	if !r.Chance(1, 8) || race {
 		switch r.Intn(4) {
 		case 0:
 			forced = []string{"cm", "node"}
@@ -951,8 +1128,12 @@ func c20xRandomHistory(c *c20xCase, r *vRand) {
 		}
 	}
 	holdAt, holdLen := -1, 0
-	if r.Chance(1, 3) { // a burst of changes whose requests stay queued, reconciled in random order in between and after
+	if r.Chance(1, 3) && !race { // a burst of changes whose requests stay queued, reconciled in random order in between and after
 		holdAt, holdLen = r.Range(1, nSteps-1), r.Range(2, 4)
+	}
+	raced := false
+	if race && nSteps <= len(forced) {
+		nSteps = len(forced) + 1
 	}
 	for stp := 0; stp < nSteps; stp++ {
 		if stp == holdAt {
@@ -1000,8 +1181,19 @@ func c20xRandomHistory(c *c20xCase, r *vRand) {
 		if kind == "cmdel" && w.cmObj == nil {
 			kind = "cm"
 		}
+		if race && !raced && stp >= len(forced) && w.cmObj != nil && len(c.nodes) > 0 && (stp == nSteps-1 || r.Chance(1, 2)) {
+			kind = "race"
+		}
 		names := c.names()
 		switch kind {
+		case "race":
+			raced = true
+			t1 := make([]c20SecRaw, 5)
+			for s := range t1 {
+				t1[s] = c20xCopySec(c.cur[s])
+			}
+			c20xRaceEdit(c, r)
+			c.stepRace(r, t1)
 		case "cm":
 			if w.cmObj == nil { // ---- create
 				for s := 0; s < 5; s++ {
@@ -1067,6 +1259,15 @@ func c20xRandomHistory(c *c20xCase, r *vRand) {
 				variation = "break"
 				s := present[r.Intn(len(present))]
 				c.cur[s] = c20SecRaw{state: 1, text: []string{"invalid_content", "{", "[]", ""}[r.Intn(4)]}
+				if r.Bool() { // not one JSON value, but a PREFIX of the text is a complete (and different) section
+					variation = "break-valid-prefix"
+					for try := 0; try < 8; try++ {
+						if g := c20GenSection(r, s); g.state == 2 {
+							c.cur[s] = c20SecRaw{state: 1, text: c20PrefixValidMalformed(r, g.text)}
+							break
+						}
+					}
+				}
 			default:
 				variation = "regen"
 				for i, s := range r.Perm(5) {
@@ -1142,6 +1343,17 @@ func TestVerifC20HistExhaustive(t *testing.T) {
 			return c20SecRaw{state: 0}
 		case 3:
 			return c20SecRaw{state: 1, text: "{"}
+		case 4: // T4: not one JSON value, but its prefix is a complete section that sets the cluster field to ANOTHER value
+			raw := c20SecRaw{state: 2}
+			switch sec {
+			case 1:
+				raw.cluster = c20J{"lsClass": c20J{"cpuQOS": c20J{"groupIdentity": int64(1)}}}
+			case 3:
+				raw.cluster = c20J{"schedIdleSaverWmark": int64(7)}
+			default:
+				raw.apps = app("agent")
+			}
+			return c20SecRaw{state: 1, text: c20xRender(sec, raw) + []string{"}", "{}", " x"}[sec%3]}
 		}
 		raw := c20SecRaw{state: 2}
 		switch sec {
@@ -1164,7 +1376,7 @@ func TestVerifC20HistExhaustive(t *testing.T) {
 		raw.text = c20xRender(sec, raw)
 		return raw
 	}
-	const letters = 10
+	const letters = 11
 	idx := 0
 	var run func(sec int, hist []int)
 	run = func(sec int, hist []int) {
@@ -1201,6 +1413,9 @@ func TestVerifC20HistExhaustive(t *testing.T) {
 						} else {
 							c.stepNodeDelete(2)
 						}
+					case l == 10: // write text T4 (valid prefix + junk)
+						c.cur[sec] = texts(sec, 4)
+						c.stepCMWrite("x-text4")
 					default:
 						c.stepRestart(l == 8)
 					}
@@ -1218,6 +1433,6 @@ func TestVerifC20HistExhaustive(t *testing.T) {
 	for _, sec := range []int{1, 3, 4} {
 		run(sec, nil)
 	}
-	h.Close("EXHAUSTIVE: every history of 1-4 steps over {write text T0 (key removed) / T1 (cluster field) / T2 (cluster + la=x entry) / T3 (unparsable), delete ConfigMap, " +
+	h.Close("EXHAUSTIVE: every history of 1-4 steps over {write text T0 (key removed) / T1 (cluster field) / T2 (cluster + la=x entry) / T3 (unparsable) / T4 (a complete section + trailing junk: not one JSON value), delete ConfigMap, " +
 		"node la=x, node la=y, node delete (or second node), restart cm-first / nodes-first} for each of the sections qos, system, host; non-trivial = a delivered field goes from set to unset")
 }
